@@ -197,6 +197,19 @@ func (g *c04gen) lvOf(t *c04ty, d int) *c04ex {
 			} else {
 				e = pickVar()
 			}
+		case c04TAny:
+			switch c := g.r.intn(10); {
+			case c < 2:
+				e = c04Var(15, t)
+			case c < 5:
+				e = c04Idx(c04Var(12, c04TA3E), g.indexFor(3))
+			case c < 7:
+				e = sidx(c04Load(c04Var(13, c04TLE)))
+			case c < 9:
+				e = c04Fld(g.lvS(d-1), 5)
+			default:
+				e = pickVar()
+			}
 		case c04TPS:
 			switch c := g.r.intn(10); {
 			case c < 5:
@@ -225,6 +238,8 @@ func (g *c04gen) lvOf(t *c04ty, d int) *c04ex {
 		return c04Fld(c04Var(1, c04TS), 3)
 	case c04TPS:
 		return c04Var(5, t)
+	case c04TAny:
+		return c04Var(15, t)
 	}
 	vs := g.varsOf(t)
 	return vs[0]
@@ -248,8 +263,8 @@ func (g *c04gen) litOf(t *c04ty, d int) *c04ex {
 	case c04Key:
 		return c04KeyLit(int64(g.r.intn(4)))
 	case c04Struct:
-		fs := make([]*c04ex, len(c04FieldTypes))
-		for i, ft := range c04FieldTypes {
+		fs := make([]*c04ex, t.n)
+		for i, ft := range c04FieldTypes[:t.n] {
 			if g.r.chance(45) || d <= 0 {
 				fs[i] = g.zeroEx(ft)
 			} else {
@@ -282,8 +297,8 @@ func (g *c04gen) zeroEx(t *c04ty) *c04ex {
 	case c04Key:
 		return c04KeyLit(0)
 	case c04Struct:
-		fs := make([]*c04ex, len(c04FieldTypes))
-		for i, ft := range c04FieldTypes {
+		fs := make([]*c04ex, t.n)
+		for i, ft := range c04FieldTypes[:t.n] {
 			fs[i] = g.zeroEx(ft)
 		}
 		return c04Lit(t, fs)
@@ -310,6 +325,8 @@ func (g *c04gen) sliceBase(t *c04ty, d int) (*c04ex, int, int) {
 			} else {
 				b = c04Addr(c04Fld(g.lvS(d-1), 1))
 			}
+		case t == c04TLE:
+			b = c04Addr(c04Var(12, c04TA3E))
 		case t == c04TLS:
 			if g.r.chance(70) {
 				b = c04Addr(c04Var(0, c04TA3S))
@@ -389,7 +406,32 @@ func (g *c04gen) rvOf(t *c04ty, d int) *c04ex {
 		}
 		return c04Load(g.lvOf(t, d))
 	}
+	if tag := c04TagOf(t); tag >= 0 && g.r.chance(12) {
+		// type assertion on an interface value that holds this dynamic type now
+		for try := 0; try < 4; try++ {
+			l := c04Load(g.lvOf(c04TAny, 1))
+			if v, ok := g.tryRv(l); ok && v.K == 'b' && v.Tag == tag {
+				return c04Unbox(l, t)
+			}
+		}
+	}
 	switch t.k {
+	case c04Any:
+		switch c := g.r.intn(20); {
+		case c < 4:
+			return c04Load(g.lvOf(t, d-1))
+		case c < 6:
+			return c04Nil(t)
+		case c < 8:
+			return c04MapGet(c04Load(c04Var(14, c04TME)), g.keyRv())
+		default:
+			bt := c04BoxTypes[g.r.intn(5)]
+			for {
+				if x := g.rvOf(bt, d-1); x.K != "nil" {
+					return c04Box(x)
+				}
+			}
+		}
 	case c04Int:
 		switch c := g.r.intn(10); {
 		case c < 3:
@@ -506,7 +548,7 @@ func (g *c04gen) pickType() *c04ty {
 	w := []struct {
 		t *c04ty
 		w int
-	}{{c04TS, 22}, {c04TInt, 14}, {c04TA3S, 7}, {c04TA2, 6}, {c04TA4, 5}, {c04TLI, 12}, {c04TLS, 8}, {c04TLL, 4}, {c04TMI, 6}, {c04TMS, 4}, {c04TPS, 9}, {c04TPA, 3}, {c04TKey, 1}}
+	}{{c04TS, 22}, {c04TInt, 14}, {c04TA3S, 7}, {c04TA2, 6}, {c04TA4, 5}, {c04TLI, 12}, {c04TLS, 8}, {c04TLL, 4}, {c04TMI, 6}, {c04TMS, 4}, {c04TPS, 9}, {c04TPA, 3}, {c04TKey, 1}, {c04TAny, 11}, {c04TA3E, 5}, {c04TLE, 8}, {c04TME, 3}}
 	tot := 0
 	for _, x := range w {
 		tot += x.w
@@ -548,20 +590,23 @@ func (g *c04gen) candidate(depth int) *c04op {
 		l := g.lvOf(c04TInt, 3)
 		return &c04op{K: "assign", Lv: l, Rhs: c04Pure(c04IntLit(g.smallInt()))}
 	case c < 42: // map entry write
+		if g.r.chance(25) {
+			return &c04op{K: "assign", Lv: c04MapL(c04Load(c04Var(14, c04TME)), g.keyRv()), Rhs: c04Pure(g.rvOf(c04TAny, 2))}
+		}
 		if g.r.chance(40) {
 			return &c04op{K: "assign", Lv: c04MapL(c04Load(c04Var(4, c04TMS)), g.keyRv()), Rhs: c04Pure(g.rvOf(c04TS, 2))}
 		}
 		return &c04op{K: "assign", Lv: c04MapL(c04Load(g.lvOf(c04TMI, 1)), g.keyRv()), Rhs: c04Pure(g.rvOf(c04TInt, 1))}
 	case c < 45: // delete
+		if g.r.chance(25) {
+			return &c04op{K: "mapdel", A: c04Load(c04Var(14, c04TME)), B: g.keyRv()}
+		}
 		if g.r.bool() {
 			return &c04op{K: "mapdel", A: c04Load(c04Var(4, c04TMS)), B: g.keyRv()}
 		}
 		return &c04op{K: "mapdel", A: c04Load(g.lvOf(c04TMI, 1)), B: g.keyRv()}
 	case c < 51: // copy
-		t := c04TLI
-		if g.r.chance(30) {
-			t = c04TLS
-		}
+		t := []*c04ty{c04TLI, c04TLI, c04TLS, c04TLE}[g.r.intn(4)]
 		return &c04op{K: "copy", A: g.rvNonNil(t, 2), B: g.rvNonNil(t, 2)}
 	case c < 61: // tuple assignment
 		return g.multi()
@@ -569,6 +614,10 @@ func (g *c04gen) candidate(depth int) *c04op {
 		t := g.pickType()
 		x := g.freshVar()
 		o := &c04op{K: "define", X: x, Rhs: g.rhsOf(t, 2)}
+		if t == c04TAny {
+			// x := e infers interface{} only from an interface-typed operand
+			o.Rhs = c04Pure(c04Load(g.lvOf(t, 2)))
+		}
 		if o.Rhs.K == "pure" && o.Rhs.E.K == "nil" {
 			o.Sugar = "var"
 		}
@@ -610,6 +659,22 @@ func (g *c04gen) multi() *c04op {
 			t = g.pickType()
 		}
 		l1, l2 := g.lvOf(t, 2), g.lvOf(t, 2)
+		if g.r.chance(35) {
+			// swap through a pointer: the operand is a pointee (*p, *x.P, *q)
+			pt := c04TPS
+			if g.r.chance(25) {
+				pt = c04TPA
+			}
+			d := c04Deref(c04Load(g.lvOf(pt, 1)))
+			d.Star = true
+			if g.tryLv(d) {
+				t = pt.elem
+				l1, l2 = g.lvOf(t, 2), d
+				if g.r.bool() {
+					l1, l2 = l2, l1
+				}
+			}
+		}
 		o.Lvs = []*c04ex{l1, l2}
 		o.Rvs = []*c04ex{c04Load(l2), c04Load(l1)}
 		return o
@@ -668,25 +733,37 @@ func c04Stable(e *c04ex) bool {
 func (g *c04gen) rangeOp(depth int) *c04op {
 	o := &c04op{K: "range"}
 	var et *c04ty
-	switch c := g.r.intn(10); {
-	case c < 4: // array value: snapshot
-		t := []*c04ty{c04TA3S, c04TA4, c04TA2}[g.r.intn(3)]
-		o.RK, o.A, et = "arr", c04Load(g.lvOf(t, 1)), t.elem
-	case c < 8: // slice
-		t := []*c04ty{c04TLS, c04TLI, c04TLI, c04TLL}[g.r.intn(4)]
-		o.RK, o.A, et = "slice", g.rvNonNil(t, 1), t.elem
+	// L: the ranged l-value when the operand is a plain read of one. Its shapes come from lvOf:
+	// variable, field, element, pointee, element of a field, field of an element ...
+	var L *c04ex
+	arrT := []*c04ty{c04TA3S, c04TA4, c04TA2, c04TA3E}
+	sliceT := []*c04ty{c04TLS, c04TLI, c04TLI, c04TLL, c04TLE, c04TLE}
+	c := g.r.intn(20)
+	if c >= 18 && depth < 2 {
+		c = g.r.intn(18)
+	}
+	switch {
+	case c < 8: // array value: the loop works on a copy
+		t := arrT[g.r.intn(len(arrT))]
+		L = g.lvOf(t, 2)
+		o.RK, o.A, et = "arr", c04Load(L), t.elem
+	case c < 18: // slice: length and backing array fixed at loop entry
+		t := sliceT[g.r.intn(len(sliceT))]
+		if g.r.chance(75) {
+			L = g.lvOf(t, 2)
+			o.RK, o.A, et = "slice", c04Load(L), t.elem
+		} else {
+			o.RK, o.A, et = "slice", g.rvNonNil(t, 1), t.elem
+		}
 	default: // pointer to array
 		// (range over a pointer to an array held in a variable, or inside a loop, is finding range-ptr-array)
-		if depth < 2 {
-			t := []*c04ty{c04TA3S, c04TA4, c04TA2}[g.r.intn(3)]
-			o.RK, o.A, et = "arr", c04Load(g.lvOf(t, 1)), t.elem
-			break
-		}
-		switch g.r.intn(3) {
+		switch g.r.intn(4) {
 		case 0:
 			o.RK, o.A, et = "ptr", c04Addr(c04Var(0, c04TA3S)), c04TS
 		case 1:
 			o.RK, o.A, et = "ptr", c04Addr(c04Var(7, c04TA4)), c04TInt
+		case 2:
+			o.RK, o.A, et = "ptr", c04Addr(c04Var(12, c04TA3E)), c04TAny
 		default:
 			o.RK, o.A, et = "ptr", c04Addr(c04Fld(g.lvS(1), 1)), c04TInt
 		}
@@ -695,20 +772,73 @@ func (g *c04gen) rangeOp(depth int) *c04op {
 	o.KV = [2]int{kv, vv}
 	saved := g.scope
 	g.scope = append(append([]c04scopeVar{}, g.scope...), c04scopeVar{kv, c04TInt}, c04scopeVar{vv, et})
-	nb := 1 + g.r.intn(3)
+	add := func(b *c04op) {
+		if b.K == "define" {
+			g.scope = append(g.scope, c04scopeVar{b.X, b.Rhs.T})
+		}
+		o.Body = append(o.Body, b)
+	}
+	vload := c04Load(c04Var(vv, et))
+	if L != nil && g.r.chance(70) {
+		// the body changes the ranged location itself: an element ahead of the cursor, or the variable
+		n := 0
+		if ok, ln, _ := g.lenCap(o.A); ok && o.RK == "slice" {
+			n = ln
+		} else if o.RK == "arr" {
+			n = L.T.n
+		}
+		nm := 1 + g.r.intn(2)
+		for i := 0; i < nm; i++ {
+			switch m := g.r.intn(10); {
+			case m < 5 && n > 0: // element ahead of the cursor
+				var el *c04ex
+				if o.RK == "arr" {
+					el = c04Idx(L, c04IntLit(int64(n-1)))
+				} else {
+					el = c04SIdx(c04Load(L), c04IntLit(int64(n-1)))
+				}
+				add(&c04op{K: "assign", Lv: el, Rhs: c04Pure(g.rvOf(et, 1))})
+			case m < 8 && o.RK == "slice": // re-assignment of the ranged slice variable
+				switch g.r.intn(4) {
+				case 0:
+					add(&c04op{K: "assign", Lv: L, Rhs: c04Pure(c04SliceEx(c04Load(L), nil, c04IntLit(int64(g.r.intn(n+1))), nil))})
+				case 1:
+					add(&c04op{K: "assign", Lv: L, Rhs: &c04rhs{K: "append", T: L.T, E: c04Load(L), L: []*c04ex{g.rvOf(et, 1)}}})
+				case 2:
+					add(&c04op{K: "assign", Lv: L, Rhs: c04Pure(c04Nil(L.T))})
+				default:
+					add(&c04op{K: "assign", Lv: L, Rhs: g.rhsOf(L.T, 1)})
+				}
+			case o.RK == "arr": // the whole array is overwritten
+				add(&c04op{K: "assign", Lv: L, Rhs: c04Pure(g.litOf(L.T, 1))})
+			default:
+				add(&c04op{K: "assign", Lv: L, Rhs: g.rhsOf(L.T, 1)})
+			}
+		}
+		if g.r.chance(60) {
+			add(&c04op{K: "assign", Lv: g.lvOf(et, 1), Rhs: c04Pure(vload)})
+		}
+	}
+	nb := g.r.intn(3)
+	if len(o.Body) == 0 {
+		nb++
+	}
 	for i := 0; i < nb; i++ {
 		var b *c04op
 		switch c := g.r.intn(10); {
-		case c < 3 && et.k != c04Slice:
+		case c < 3:
 			// store the value variable somewhere of its type
-			b = &c04op{K: "assign", Lv: g.lvOf(et, 1), Rhs: c04Pure(c04Load(c04Var(vv, et)))}
+			b = &c04op{K: "assign", Lv: g.lvOf(et, 1), Rhs: c04Pure(vload)}
 		case c < 5:
 			// mutate the value variable (must not affect the operand)
-			if et == c04TS {
+			switch et {
+			case c04TS:
 				b = &c04op{K: "assign", Lv: c04Fld(c04Var(vv, et), 0), Rhs: c04Pure(c04IntLit(g.smallInt()))}
-			} else if et == c04TInt {
+			case c04TInt:
 				b = &c04op{K: "assign", Lv: c04Var(vv, et), Rhs: c04Pure(c04IntLit(g.smallInt()))}
-			} else {
+			case c04TAny:
+				b = &c04op{K: "assign", Lv: c04Var(vv, et), Rhs: c04Pure(c04Box(c04IntLit(g.smallInt())))}
+			default:
 				b = &c04op{K: "assign", Lv: c04Var(9, c04TInt), Rhs: c04Pure(c04Load(c04Var(kv, c04TInt)))}
 			}
 		default:
@@ -717,10 +847,7 @@ func (g *c04gen) rangeOp(depth int) *c04op {
 				b = g.candidate(depth - 1)
 			}
 		}
-		if b.K == "define" {
-			g.scope = append(g.scope, c04scopeVar{b.X, b.Rhs.T})
-		}
-		o.Body = append(o.Body, b)
+		add(b)
 	}
 	if g.r.chance(35) {
 		o.Body = append(o.Body, &c04op{K: "dump"})
@@ -736,6 +863,9 @@ func c04OpInMultiDirect(o *c04op) bool {
 	}
 	for i, r := range o.Rvs {
 		if c04IsCallLike(r) && o.Lvs[i].K != "map" {
+			return true
+		}
+		if r.K == "box" && c04IsCompositeLit(r.A) && o.Lvs[i].K == "var" {
 			return true
 		}
 		if c04IsCompositeLit(r) && o.Lvs[i].K == "var" {
@@ -776,7 +906,37 @@ func c04OpAppendAlias(o *c04op) bool {
 		return false
 	}
 	for i, e := range r.L {
+		for e.K == "box" {
+			e = e.A
+		}
 		if i >= 1 && e.K == "load" {
+			return true
+		}
+	}
+	return false
+}
+
+// append(s, ..., nil, ...): nil as an appended element
+func c04OpAppendNil(o *c04op) bool {
+	r := o.Rhs
+	if (o.K != "assign" && o.K != "define") || r == nil || r.K != "append" {
+		return false
+	}
+	for _, e := range r.L {
+		if e.K == "nil" {
+			return true
+		}
+	}
+	return false
+}
+
+// a tuple assignment with a right-hand operand of static type interface{}
+func c04OpMultiIface(o *c04op) bool {
+	if o.K != "multi" {
+		return false
+	}
+	for _, r := range o.Rvs {
+		if r.T == c04TAny && r.K != "box" && r.K != "nil" {
 			return true
 		}
 	}
@@ -899,6 +1059,12 @@ func (g *c04gen) acceptable(o *c04op) bool {
 	if c04AnyOp(o, func(x *c04op) bool { return x.K == "call" && x.Lv != nil && !c04Stable(x.Lv) }) {
 		return false
 	}
+	if g.mode != "multi-assign-iface" && c04AnyOp(o, c04OpMultiIface) {
+		return false
+	}
+	if g.mode != "append-nil-elem" && c04AnyOp(o, c04OpAppendNil) {
+		return false
+	}
 	if g.mode != "append-multi-alias" && c04AnyOp(o, c04OpAppendAlias) {
 		return false
 	}
@@ -991,13 +1157,16 @@ func c04Catalogue() []*c04fn {
 		{Name: "fel", Params: []int{100}, PTypes: []*c04ty{c04TS}, RetT: c04TLI, Ret: c04Load(c04Fld(x0(c04TS), 2))},
 		{Name: "fapp", Params: []int{100}, PTypes: []*c04ty{c04TLI}, RetT: c04TLI, Ret: c04Load(x0(c04TLI)),
 			Body: []*c04op{{K: "assign", Lv: x0(c04TLI), Rhs: &c04rhs{K: "append", T: c04TLI, E: c04Load(x0(c04TLI)), L: []*c04ex{c04IntLit(1)}}}, asg(c04SIdx(c04Load(x0(c04TLI)), c04IntLit(0)), c04IntLit(8))}},
+		{Name: "fvE", Params: []int{100}, PTypes: []*c04ty{c04TA3E}, RetT: c04TA3E, Ret: c04Load(x0(c04TA3E)),
+			Body: []*c04op{asg(c04Idx(x0(c04TA3E), c04IntLit(0)), c04Box(c04IntLit(99)))}},
+		{Name: "fE", Params: []int{100}, PTypes: []*c04ty{c04TAny}, RetT: c04TAny, Ret: c04Load(x0(c04TAny))},
 		{Name: "fpp", Params: []int{100}, PTypes: []*c04ty{c04TPS}, RetT: c04TPS, Ret: c04Load(c04Fld(c04Deref(c04Load(x0(c04TPS))), 4))},
 	}
 }
 
 func c04NewGen(r *rng, mode string) *c04gen {
 	g := &c04gen{r: r, st: c04InitState(), nextTmp: 19, fns: c04Catalogue(), mode: mode, stats: map[string]int{}}
-	for id := 0; id <= 11; id++ {
+	for id := 0; id < c04VarCount; id++ {
 		g.scope = append(g.scope, c04scopeVar{id, c04PoolTypes[id]})
 	}
 	return g
@@ -1020,17 +1189,21 @@ func (g *c04gen) sugar() *c04op {
 	saveN := &c04op{K: "define", X: tmp, Rhs: c04Pure(c04Load(xN))}
 	setN := c04AsgInt(xN, c04IntLit(c))
 	o := &c04op{K: "sugar", Unmodelled: true}
-	switch g.r.intn(8) {
+	// the methods are declared on R: operands r, ra[c]
+	xr := g.lvR()
+	rN := c04Fld(xr, 0)
+	switch g.r.intn(10) {
 	case 0: // value receiver: the method works on a copy
-		o.Text = []string{fmt.Sprintf("%s.SetN(%d)", x.goBase(), c)}
+		o.Text = []string{fmt.Sprintf("%s.SetN(%d)", xr.goBase(), c), fmt.Sprintf("j = %s.N + %s.A[0]", xr.goBase(), xr.goBase())}
+		o.Equiv = []*c04op{c04AsgInt(jv, c04Add(c04Load(rN), c04Load(c04Idx(c04Fld(xr, 1), c04IntLit(0)))))}
 		o.Sugar = "method-value-receiver"
 	case 1: // pointer receiver on an addressable operand
-		o.Text = []string{fmt.Sprintf("%s.Inc()", x.goBase())}
-		o.Equiv = []*c04op{c04AsgInt(xN, c04Add(c04Load(xN), c04IntLit(1)))}
+		o.Text = []string{fmt.Sprintf("%s.Inc()", xr.goBase()), fmt.Sprintf("j = %s.N", xr.goBase())}
+		o.Equiv = []*c04op{c04AsgInt(rN, c04Add(c04Load(rN), c04IntLit(1))), c04AsgInt(jv, c04Load(rN))}
 		o.Sugar = "method-pointer-receiver"
 	case 2:
-		o.Text = []string{fmt.Sprintf("j = %s.Get()", x.goBase())}
-		o.Equiv = []*c04op{c04AsgInt(jv, c04Load(xN))}
+		o.Text = []string{fmt.Sprintf("%s.N = %d", xr.goBase(), c), fmt.Sprintf("j = %s.Get()", xr.goBase())}
+		o.Equiv = []*c04op{c04AsgInt(rN, c04IntLit(c)), c04AsgInt(jv, c04Load(rN))}
 		o.Sugar = "method-read"
 	case 3: // closure: captures by reference
 		o.Text = []string{fmt.Sprintf("f%d := func() int { return %s.N }", n, x.goBase()), fmt.Sprintf("%s.N = %d", x.goBase(), c), fmt.Sprintf("j = f%d()", n)}
@@ -1047,12 +1220,30 @@ func (g *c04gen) sugar() *c04op {
 		o.Text = []string{fmt.Sprintf("a = func(x [3]S) [3]S { x[0].N = %d; return x }(a)", c)}
 		o.Equiv = []*c04op{c04AsgInt(c04Fld(c04Idx(c04Var(0, c04TA3S), c04IntLit(0)), 0), c04IntLit(c))}
 		o.Sugar = "funclit-array-by-value"
+	case 8, 9: // closure capturing the array of interface values: by reference; its result is a copy of the element
+		ci := int64(g.r.intn(3))
+		el := c04Idx(c04Var(12, c04TA3E), c04IntLit(ci))
+		bx := g.rvOf(c04TAny, 1)
+		for bx.K == "nil" || bx.K == "load" || bx.K == "mapget" {
+			bx = g.rvOf(c04TAny, 1)
+		}
+		o.Text = []string{fmt.Sprintf("f%d := func() interface{} { return ea[%d] }", n, ci), fmt.Sprintf("ea[%d] = %s", ci, bx.goStr()), fmt.Sprintf("e = f%d()", n)}
+		o.Equiv = []*c04op{{K: "assign", Lv: el, Rhs: c04Pure(bx)}, {K: "assign", Lv: c04Var(15, c04TAny), Rhs: c04Pure(c04Load(el))}}
+		o.Sugar = "closure-iface-array"
 	default: // channel send copies
 		o.Text = []string{fmt.Sprintf("ch%d := make(chan S, 1)", n), fmt.Sprintf("ch%d <- %s", n, xs), fmt.Sprintf("%s.N = %d", x.goBase(), c), fmt.Sprintf("j = (<-ch%d).N", n)}
 		o.Equiv = []*c04op{saveN, setN, c04AsgInt(jv, c04Load(c04Var(tmp, c04TInt)))}
 		o.Sugar = "channel-send"
 	}
 	return o
+}
+
+// an R-typed l-value (the struct type with methods)
+func (g *c04gen) lvR() *c04ex {
+	if g.r.bool() {
+		return c04Var(16, c04TR)
+	}
+	return c04Idx(c04Var(17, c04TA2R), c04IntLit(int64(g.r.intn(2))))
 }
 
 // regionSugar: the constructs of the known-finding regions that lie outside the Coq grammar.
@@ -1068,11 +1259,24 @@ func (g *c04gen) regionSugar() *c04op {
 	o := &c04op{K: "sugar", Unmodelled: true, Sugar: g.mode}
 	switch g.mode {
 	case "method-value-receiver-alias":
-		o.Text = []string{fmt.Sprintf("f%d := %s.Get", n, x.goBase()), fmt.Sprintf("%s.N = %d", x.goBase(), c), fmt.Sprintf("j = f%d()", n)}
-		o.Equiv = []*c04op{saveN, setN, c04AsgInt(jv, c04Load(c04Var(tmp, c04TInt)))}
+		xr := g.lvR()
+		rN := c04Fld(xr, 0)
+		o.Text = []string{fmt.Sprintf("f%d := %s.Get", n, xr.goBase()), fmt.Sprintf("%s.N = %d", xr.goBase(), c), fmt.Sprintf("j = f%d()", n)}
+		o.Equiv = []*c04op{{K: "define", X: tmp, Rhs: c04Pure(c04Load(rN))}, c04AsgInt(rN, c04IntLit(c)), c04AsgInt(jv, c04Load(c04Var(tmp, c04TInt)))}
+	case "iface-holds-type-with-methods":
+		// a value of a type with methods stored in an interface{} element
+		xr := g.lvR()
+		l := g.lvOf(c04TAny, 1)
+		bx := &c04ex{K: "box", A: c04Load(xr), V: 5, T: c04TAny}
+		return &c04op{K: "assign", Lv: l, Rhs: c04Pure(bx), Unmodelled: true}
 	case "interface-boxing-alias":
-		o.Text = []string{fmt.Sprintf("var e%d interface{} = %s", n, x.goStr()), fmt.Sprintf("%s.N = %d", x.goBase(), c), fmt.Sprintf("j = e%d.(S).N", n)}
-		o.Equiv = []*c04op{saveN, setN, c04AsgInt(jv, c04Load(c04Var(tmp, c04TInt)))}
+		// (only for a type with methods: the value is wrapped, not copied)
+		xr := g.lvR()
+		rN := c04Fld(xr, 0)
+		o.Text = []string{fmt.Sprintf("var e%d interface{} = %s", n, xr.goStr()), fmt.Sprintf("%s.N = %d", xr.goBase(), c), fmt.Sprintf("j = e%d.(R).N", n)}
+		o.Equiv = []*c04op{{K: "define", X: tmp, Rhs: c04Pure(c04Load(rN))}, c04AsgInt(rN, c04IntLit(c)), c04AsgInt(jv, c04Load(c04Var(tmp, c04TInt)))}
+	case "append-nil-elem":
+		return &c04op{K: "assign", Lv: c04Var(3, c04TLL), Rhs: &c04rhs{K: "append", T: c04TLL, E: c04Load(c04Var(3, c04TLL)), L: []*c04ex{c04Nil(c04TLI)}}, Unmodelled: true}
 	case "defer-arg-alias":
 		o.Text = []string{fmt.Sprintf("func() { defer func(d S) { j = d.N }(%s); %s.N = %d }()", x.goStr(), x.goBase(), c)}
 		o.Equiv = []*c04op{saveN, setN, c04AsgInt(jv, c04Load(c04Var(tmp, c04TInt)))}
